@@ -413,6 +413,9 @@ def rewritten_file_check(ctx, work):
     and the other way round."""
     from codebasin import file_parser, preprocessor
     acc = ctx.acc
+    # a directory of its own: finder.find parses every file of the code base, and `work` holds whatever text the
+    # other classes checked last (possibly one that an open finding makes unparsable)
+    work = ctx.subdir("rewrite")
     for k, nlines in enumerate((100, 1500, 2500, 10000)):
         if (k + 3) % ctx.nshards != ctx.shard:
             continue
